@@ -8,7 +8,8 @@ attribute [local irreducible] PyH.thenFlow PyH.bindE PyH.tryCatch PyH.finish PyH
 /-- a leaf of a header segment: an exception out of `headers.get` is an `Exception` (`hE`), so the handler's `None` is handed on -/
 macro "header_leaf" hE:ident : tactic => `(tactic| (
   try (have hc := $hE _ _ ‹_ = Except.error _›)
-  simp_all [etagHeaderOf, contentTypeOf, headerOf, SatN, pand_b2v_truthy, isNone_truthy, b2v_truthy, isInstance_str_truthy, Resp.hget]))
+  simp_all [etagHeaderOf, contentTypeOf, headerOf, SatN, pand_b2v_truthy, isNone_truthy, b2v_truthy, isInstance_str_truthy, Resp.hget]
+  <;> (try ((repeat' split) <;> simp_all))))
 
 section
 variable (url headers vs : PyVal) (imp : Except PyH.Exc PyVal) (get : PyVal → PyVal → PyVal → Except PyH.Exc PyH.Resp)
@@ -137,6 +138,60 @@ theorem http_load_etag_after (u : PyVal) (hi : imp = .ok u) (r : PyH.Resp)
   intro s _ hs
   sat_steps
   all_goals simp_all
+
+/-! ### the parser hints (C17, fixed finding F20) -/
+
+/-- where a returned document can come from -/
+def Provenance (cache : PyVal) (r : PyH.Resp) (url : PyVal) (detect : PyVal → PyVal → PyVal)
+    (parse : PyVal → PyVal → PyVal → Except PyH.Exc PyVal) (v : PyVal) : Prop :=
+  v = cache ∨ v = .dict []
+  ∨ (r.callJson 1 = .ok v ∧ r.has "json" = true ∧ pyEq (detect url (contentTypeOf r)) (.str "json") = true)
+  ∨ (r.callJson 2 = .ok v ∧ (Rbacx.Py.contains (Rbacx.Py.lower (contentTypeOf r)) (.str "json")).truthy = true)
+  ∨ (∃ t, parse t url (contentTypeOf r) = .ok v)
+
+/-- a document `load()` returns is the cached one / `{}` (304), or the response's own `.json()` on the FAST PATH — taken only when
+    `_detect_format(filename=url, content_type=ct) == "json"` for the very `ct` read from the `Content-Type` header —, or the
+    last-resort `.json()` (only when `"json" in ct.lower()`), or what `parse_policy_text(…, filename=url, content_type=ct)` returned for
+    exactly these hints -/
+theorem http_load_parser_hints (u : PyVal) (hi : imp = .ok u) (r : PyH.Resp)
+    (hg : get url (sentHeaders headers st.etag) (.int 5) = .ok r) (hE : HeadersRaiseExceptions r) (v : PyVal)
+    (h : (Src.http_load url headers vs imp get parse validate detect st).2 = .ok v) :
+    Provenance st.policy_cache r url detect parse v := by
+  simp only [sentHeaders] at hg
+  simp only [Src.http_load, hi, bindE_ok, tryCatch_next, thenFlow_next, thenFlow_ite_next, hg] at h
+  refine satT_finish_ok (I := fun (s : Src.http_State) => s.policy_cache = st.policy_cache)
+    (R := fun _ v => Provenance st.policy_cache r url detect parse v) (E := fun _ _ => True) ?_ v h
+  clear h
+  apply satT_thenFlow
+  · sat_steps
+    all_goals simp_all [Provenance]
+  intro _ _ _
+  apply satT_thenFlow
+  · sat_steps
+    all_goals simp_all [Provenance]
+  intro _ _ _
+  apply satT_thenFlow
+  · sat_steps
+    all_goals simp_all [Provenance]
+  intro _ _ _
+  apply satT_thenFlow
+  · sat_steps
+    all_goals simp_all [Provenance]
+  intro s0 _ hs0
+  apply satT_thenFlowN (N := fun (s : Src.http_State) c => s.policy_cache = st.policy_cache ∧ c = contentTypeOf r)
+  · satn_steps
+    all_goals header_leaf hE
+  rintro s1 c ⟨hs1, rfl⟩
+  sat_steps
+  all_goals first
+    | (simp_all [Provenance, pand_truthy, b2v_truthy, eq_truthy, isInstance_dict_truthy, PyVal.isDict]; done)
+    | exact Or.inr (Or.inr (Or.inr (Or.inr ⟨_, ‹_›⟩)))
+    | trace_state
+
+/-- `parse_policy_text` is consulted with `filename = url` only -/
+theorem http_load_parser_filename (parse' : PyVal → PyVal → PyVal → Except PyH.Exc PyVal) (h : ∀ t c, parse t url c = parse' t url c) :
+    Src.http_load url headers vs imp get parse validate detect st = Src.http_load url headers vs imp get parse' validate detect st := by
+  simp only [Src.http_load, h]
 
 end
 end Rbacx.Translated
